@@ -1,6 +1,6 @@
 CONSTANTS Depth = 3
  UOps = {"-", ".not."}
- BOps = {"*", "-", "//", "<", ".and.", ".or.", ".eqv."}
+ BOps = {"*", "-", "<", ".and."}
  WithCalls = TRUE
  LeafSet = {1}
 INIT Init
